@@ -86,10 +86,13 @@ func Analyze(sc *Scenario, rel Rel) Analysis {
 		}
 		return false
 	}
-	// generators in "conv" mode: for every source label of type From there may
-	// be a converter From/sub -> To. Modelled as extra converters discovered
-	// during the iteration.
-	genFired := map[[2]interface{}]bool{}
+	// Generators run ONCE, over the value and typed-output vertices present
+	// when the graph is built (supplied values, converter outputs, and the
+	// named requirements of the target and of the converters); a converter
+	// they emit takes the (type, subtype) of that vertex and is an ordinary
+	// converter afterwards. Converters emitted by generators do not trigger
+	// further generation.
+	convs = append(append([]FuncSpec(nil), convs...), GeneratedConvs(sc)...)
 	for changed := true; changed; {
 		changed = false
 		for i := range convs {
@@ -106,23 +109,6 @@ func Analyze(sc *Scenario, rel Rel) Analysis {
 			if ok {
 				a.Fired[i] = true
 				a.Sources = append(a.Sources, convs[i].Out...)
-				changed = true
-			}
-		}
-		for gi, g := range sc.Gens {
-			if g.Mode != "conv" {
-				continue
-			}
-			for _, s := range append([]Label(nil), a.Sources...) {
-				if s.Type != g.From {
-					continue
-				}
-				k := [2]interface{}{gi, s.Sub}
-				if genFired[k] {
-					continue
-				}
-				genFired[k] = true
-				a.Sources = append(a.Sources, Label{Type: g.To, Dyn: g.To})
 				changed = true
 			}
 		}
@@ -231,6 +217,47 @@ func AllSourceLabels(sc *Scenario) []Label {
 	for _, g := range sc.Gens {
 		if g.Mode == "conv" {
 			out = append(out, Label{Type: g.To, Dyn: g.To})
+		}
+	}
+	return out
+}
+
+// GeneratedConvs lists the converters the scenario's "conv"-mode generators
+// emit: one per generator and per (type, subtype) among the vertices a
+// generator is shown.
+func GeneratedConvs(sc *Scenario) []FuncSpec {
+	var shown []Label
+	for _, in := range EffectiveInputs(sc.Inputs) {
+		shown = append(shown, in.L)
+	}
+	fs := append([]FuncSpec{sc.Target}, sc.Convs...)
+	for i := range fs {
+		for _, l := range fs[i].In {
+			if l.Named() { // named requirements are value vertices
+				shown = append(shown, l)
+			}
+		}
+		if i > 0 {
+			shown = append(shown, fs[i].Out...)
+		}
+	}
+	var out []FuncSpec
+	seen := map[string]bool{}
+	for gi, g := range sc.Gens {
+		if g.Mode != "conv" {
+			continue
+		}
+		for _, l := range shown {
+			if l.Type != g.From {
+				continue
+			}
+			k := string(rune('0'+gi)) + "/" + l.Sub
+			if seen[k] {
+				continue
+			}
+			seen[k] = true
+			out = append(out, FuncSpec{ID: 1000000 * g.ID, In: []Label{{Type: g.From, Dyn: g.From, Sub: l.Sub}}, InForm: FormStruct,
+				Out: []Label{{Type: g.To, Dyn: g.To}}, OutForm: FormStruct, HasErr: true, Built: true})
 		}
 	}
 	return out
